@@ -1419,8 +1419,8 @@ package ro
 //@   calls Lock NextWithContext Unlock
 //@   params ctx value
 //@   maypanic
-//@   track window.* tmp.* destination.*
-//@   ensures [the-value-reaches-the-current-window-under-the-emit-lock|C05,C20] heldat(muEmit, tmp.ANY) && heldat(muEmit, destination.ANY)
+//@   track window.* destination.*
+//@   ensures [the-value-reaches-the-current-window-under-the-emit-lock|C05,C20] trace(window.NextWithContext(ctx, value)) && heldat(muEmit, window.ANY)
 
 //@ func WindowWhen$1$1$3
 //@   props C05 C20
